@@ -4,6 +4,11 @@ import json, os
 HERE = os.path.dirname(os.path.dirname(os.path.abspath(__file__)))
 
 CHECKS = {
+ 'C15': dict(
+   category='model_checking',
+   text="MatrixADT.tla models the assemble_csr/coo/block pipeline statement by statement (compress_indices, the three validation tests, backend scatter) and the matrix operations (neg, T, scale, add, sub, submatrix with its cache, pickle through __reduce__) over Gaussian-integer dense denotations; TLC checks AcceptIffValid, Faithful, CompressCorrect, BlockFaithful, PickleFaithful, CacheTransparent, StepsFaithful exhaustively for all small CSR/COO inputs incl. ill-formed ones; every behaviour is replayed on every available backend (numpy, scipy) with the model's denotation, rowsupp, diagonal and products as oracle, and the real export('csr'/'coo') tables are checked by TLC (MatrixExport).",
+   note="Shapes up to 2x2 (3x3 thorough), nnz <= 4, exact dyadic Gaussian integers (no rounding behaviour); MKL backend not importable here; any exception counts as rejection of ill-formed input.",
+   technique="TLA+ ADT model checked exhaustively by TLC; behaviours replayed on all backends; exported tables validated by TLC"),
  'C01': dict(
    category='model_checking',
    text="Programs are the complete states of the typed DAG-builder TLA+ machine ExprBuilder (TLC exhaustive for small vocabularies, -simulate beyond, directed families); their meaning is the exact-rational TLA+ semantics ArraySem evaluated by TLC (EvalDag). Each program is built with nutils' raw constructors, simplified under a watchdog and evaluated: shape, dtype, values at three argument assignments must equal the model (S->C). Every rewrite step of the real fixed-point driver is recorded, exported back to DAG JSON and TLC decides with PairVerdict whether the step preserved the value (C->S).",
